@@ -2,7 +2,7 @@
 # tools/verify_seed.sh <CXX> <k> : confirm a seeded change in its scratch worktree /tmp/seed/<CXX>:
 #  with the patch: the repository's own lib tests pass (161) and the demo fails; without: the demo passes.
 # Prints one line: "<CXX>/<k> tests_with=<passed>/<failed> demo_with=<fail|pass> demo_without=<pass|fail> features=<..>"
-id="$1"; k="$2"; wt="/tmp/seed/$id"; out="/tmp/seed/out/$id/$k"
+id="$1"; k="$2"; R="${SEEDROOT:-/tmp/seed}"; wt="$R/$id"; out="$R/out/$id/$k"
 cd "$wt" || exit 2
 git checkout -q -- . ; rm -f tests/demo.rs
 feats=""
@@ -14,9 +14,9 @@ fa=""; [ -n "$feats" ] && fa="--features $feats"
 git apply "$out/patch.diff" || { echo "$id/$k PATCH-DOES-NOT-APPLY"; exit 1; }
 tw=$(cargo test --offline --lib 2>&1 | grep -E "^test result" | head -1 | sed -E 's/.* ([0-9]+) passed; ([0-9]+) failed.*/\1\/\2/')
 mkdir -p tests; cp "$out/demo.rs" tests/demo.rs
-if cargo test --offline --test demo $fa >/tmp/seed/out/$id/$k/demo_with.log 2>&1; then dw=pass; else dw=fail; fi
-grep -q "error\[" /tmp/seed/out/$id/$k/demo_with.log && dw="compile-error"
+if cargo test --offline --test demo $fa >$out/demo_with.log 2>&1; then dw=pass; else dw=fail; fi
+grep -q "error\[" $out/demo_with.log && dw="compile-error"
 git checkout -q -- .
-if cargo test --offline --test demo $fa >/tmp/seed/out/$id/$k/demo_without.log 2>&1; then dwo=pass; else dwo=fail; fi
+if cargo test --offline --test demo $fa >$out/demo_without.log 2>&1; then dwo=pass; else dwo=fail; fi
 rm -f tests/demo.rs
 echo "$id/$k tests_with=$tw demo_with=$dw demo_without=$dwo features=$feats"
